@@ -16,7 +16,7 @@
 
    Final value of a variable = its full expansion after the last line;
    an undefined variable expands to the empty string.  A recursive variable
-   ("Variable X is recursive", make aborts) is the error value [None]; it is
+   (bmake: "... X is recursive", make aborts) is the error value [None]; it is
    detected by fuel: more nested lookups than [fuel]. *)
 From PV Require Import Lib.Bytes.
 
